@@ -386,6 +386,12 @@ def keyed_laws(arr: list[Any], key: str, out: V) -> None:
                         break
             elif sk[0] == "foreign":
                 out.append((f"{name}-key-foreign", [arr, key], "value or LiquidError", sk[1]))
+            else:
+                # items that lack the key go last: that cannot be a reason to fail when the values that ARE there
+                # have a common order (all integers, or all strings)
+                present = [x[key] for x in arr if isinstance(x, dict) and key in x]
+                if name == "sort" and present and (all(isinstance(v, int) and not isinstance(v, bool) for v in present) or all(isinstance(v, str) for v in present)):
+                    out.append((f"{name}-key-fails-although-the-present-values-are-ordered", [arr, key], "sorted, items without the key last", sk))
         uk = call("uniq", arr, key)
         if uk[0] == "ok":
             want_u, seen = [], []
